@@ -11,7 +11,6 @@ import (
 	"sort"
 
 	xdb "com.tuntun.rangers/node/src/middleware/db"
-	"github.com/syndtr/goleveldb/leveldb/iterator"
 )
 
 type kv struct {
@@ -28,6 +27,10 @@ var errInjected = errors.New("verif: injected write failure")
 var errNotFound = errors.New("leveldb: not found")
 
 type recDB struct {
+	// the embedded value only supplies NewIterator/NewIteratorWithPrefix (which
+	// panic "Not support" in MemDatabase, as nothing in the state path calls
+	// them); every other method is overridden below
+	xdb.Database
 	m       map[string][]byte
 	log     []physWrite
 	failAt  int // <0: never fail; otherwise number of physical writes still allowed
@@ -36,7 +39,14 @@ type recDB struct {
 	refused []kv // Puts of the batch whose Write was refused (fault injection)
 }
 
-func newRecDB() *recDB { return &recDB{m: map[string][]byte{}, failAt: -1, record: true} }
+func baseDB() xdb.Database {
+	d, _ := xdb.NewMemDatabase()
+	return d
+}
+
+func newRecDB() *recDB {
+	return &recDB{Database: baseDB(), m: map[string][]byte{}, failAt: -1, record: true}
+}
 
 func cp(b []byte) []byte {
 	c := make([]byte, len(b))
@@ -93,12 +103,6 @@ func (d *recDB) Close() {}
 
 func (d *recDB) NewBatch() xdb.Batch { return &recBatch{db: d} }
 
-func (d *recDB) NewIterator() iterator.Iterator { panic("recDB: NewIterator not supported") }
-
-func (d *recDB) NewIteratorWithPrefix(prefix []byte) iterator.Iterator {
-	panic("recDB: NewIteratorWithPrefix not supported")
-}
-
 // snapshot returns an independent copy of the current content.
 func (d *recDB) snapshot() map[string][]byte {
 	c := make(map[string][]byte, len(d.m))
@@ -108,7 +112,9 @@ func (d *recDB) snapshot() map[string][]byte {
 	return c
 }
 
-func viewDB(m map[string][]byte) *recDB { return &recDB{m: m, failAt: -1, record: false} }
+func viewDB(m map[string][]byte) *recDB {
+	return &recDB{Database: baseDB(), m: m, failAt: -1, record: false}
+}
 
 // applyPrefix returns base + the first j physical writes of ws (a fresh map).
 func applyPrefix(base map[string][]byte, ws []physWrite, j int) map[string][]byte {
